@@ -87,6 +87,11 @@ func fileOps(c *Ctx, e *engine.OpEngine, f OpFilter) {
 		c.R.NotDecide(fmt.Sprintf("%d instance(s) touch element data outside the recognised data layer and were decided on concrete sizes (2 or 3 per dimension) instead of symbolic ones", e.ConcreteFallbacks))
 		e.ConcreteFallbacks = 0
 	}
+	if e.PathBudgetHits > 0 {
+		c.R.Count("data.instances_cut_at_path_budget", e.PathBudgetHits)
+		c.R.NotDecide(fmt.Sprintf("%d labelled instance(s) branch on element values so often that only their first 160 abstract paths were decided", e.PathBudgetHits))
+		e.PathBudgetHits = 0
+	}
 	bad := map[string]bool{}
 	for _, fd := range e.Findings {
 		keep := f.Keep == nil || f.Keep(fd.Rule, fd.Construct)
